@@ -471,6 +471,11 @@ pub fn render_item(it: &GItem) -> String {
             s.push_str(&format!("/// The {} type.\n", it.name));
         }
     }
+    if !it.annotated && it.const_val % 3 == 1 {
+        // not an annotation for the tool (the attribute is only there when a feature is on); such
+        // items are not part of the output wherever they live
+        s.push_str("#[cfg_attr(feature = \"bindings\", typeshare)]\n");
+    }
     if it.annotated {
         s.push_str("#[typeshare]\n");
         for a in &it.item_attrs {
